@@ -205,6 +205,17 @@ FIXED += [
       "ref": "program p\n  forall (i = 1:2)\n    a(i) = 2\n  end forall\nend program p\n"}),
 ]
 
+FIXED += [
+    ("C08", "accepted:delete-opener@do", "d53308f", "inside a labelled DO block an END DO without the block's label stayed as an ordinary child: a labelled DO closed by an unlabelled END DO (the labelled statement following), or a surplus END DO inside a labelled DO, was accepted",
+     c08(wrap("  do 46 k = 1, 3\n    exit\n  end do\n  46 continue"), "delete-opener@do")),
+    ("C08", "accepted:surplus-end@write", "d53308f", "same mechanism, reached by a surplus END DO after an inner loop",
+     c08(wrap("  do 10 i = 1, 2\n    do j = 1, 2\n      x = 1\n    end do\n    end do\n    write (*, *) x\n  end do\n  10 continue"), "surplus-end@write")),
+    ("C06", "ValueError@Format_Item_List.match", "32a5397", "'format (1x, 3 3Habc)': ValueError escaped (Hollerith count with a blank between its digits converted with int())",
+     c06("program p\n10 format (1x, 3 3Habc, z8)\nend program p\n")),
+    ("C04", "layout-rejected", "d96d4e8", "'real(8)pure function f(x)' - a prefix keyword directly after the closing parenthesis of the type-spec (lines joined by '&' ... '&') - was rejected",
+     c04("real(8)&\n  &pure function vf_f(vf_a)\nend function vf_f\n", "real(8) pure function vf_f(vf_a)\nend function vf_f\n")),
+]
+
 OPEN = [
     ("C01", "format-c1002-node-not-reproduced", "a scale factor directly followed by a data edit descriptor ('1p e12.4') is held in a Format_Item_C1002 node but printed with a comma ('1P, E12.4'), so the re-parsed tree has two list items instead: the tree is not structurally identical after the round trip (the comma is asserted by test_format_specification_r1002.py)",
      {"mode": "source", "std": "f2003", "ic": True, "text": "subroutine s\n10 format (1p e12.4, i3)\nend subroutine s\n"}),
@@ -237,7 +248,6 @@ OPEN = [
     ("C08", "accepted:delete-paren@access", "PUBLIC OPERATOR(==, ASSIGNMENT(=) with a missing ')' is accepted", c08("module m\n  public operator(==, assignment(=)\nend module m\n", "delete-paren@access")),
     ("C08", "accepted:delete-paren@use", "USE m, ONLY: OPERATOR(==, OPERATOR(.dot.) with a missing ')' is accepted", c08(wrap("  use m, only: operator(==, operator(.dot.)"), "delete-paren@use")),
     ("C08", "accepted:rename-construct-name@end_do", "a labelled DO construct closed by 'label END DO other_name' is accepted (no name check for Block_Label_Do_Construct)", c08(wrap("  nm: do 10 i = 1, 2\n  10 end do nm_zz"), "rename-construct-name@end_do")),
-    ("C08", "accepted:delete-opener@do", "a labelled DO closed by an unlabelled END DO (with the labelled statement following) is accepted", c08(wrap("  do 46 k = 1, 3\n    exit\n  end do\n  46 continue"), "delete-opener@do")),
     ("C08", "accepted:delete-opener@subprogram", "specification and executable statements directly after CONTAINS in a subprogram are accepted (seen when the opener of a contained subprogram is deleted)", c08("function f()\n  contains\n  integer :: a\n  a = 1\nend function\n", "delete-opener@subprogram")),
     ("C09", "tables-left-behind", "symbol tables of units matched before the failing unit of the same source stay behind (and a failing PROGRAM-less main program removes a 'fparser2:main_program' table made by an earlier parse): no transactional clean-up",
      {"mode": "leak", "text": "module a\n  integer :: sin\nend module a\nmodule b\n  x = = 1\nend module b\n"}),
